@@ -362,7 +362,7 @@ KIND2PROP = {
     "fdisplay": "C11", "fcmp": "C11", "fhash": "C11",
     "konst": "C17",
     "pair": "C12",
-    "gadget": "C13", "lazy_new": "C13", "lazy_op": "C13", "lazy_end": "C13",
+    "gadget": "C13", "lazy_new": "C13", "lazy_op": "C13", "lazy_end": "C13", "lazy_orig": "C13",
     "hint": "C14",
     "shape": "C15", "pubinput": "C15", "groth16": "C15",
     "blsgen": "C16", "blsmul": "C16", "blspair": "C16", "blsconst": "C16", "blsfrob": "C16", "blsdeser": "C16", "blspt": "C16", "blsraw": "C16", "blsmpair": "C16", "blsmsm": "C16",
